@@ -137,8 +137,14 @@ pub async fn send_appointment(
                 r.start_block,
                 r.signature.clone(),
             );
+            // A signature that cannot even be decoded proves nothing about who made it: the reply is as good as garbage.
             let recovered_id = TowerId(
-                cryptography::recover_pk(&receipt.to_vec(), &receipt.signature().unwrap()).unwrap(),
+                cryptography::recover_pk(&receipt.to_vec(), &receipt.signature().unwrap())
+                    .map_err(|e| {
+                        RequestError::DeserializeError(format!(
+                            "Unexpected response body. The tower signature cannot be decoded: {e}"
+                        ))
+                    })?,
             );
             if recovered_id == tower_id {
                 Ok((r, receipt))
